@@ -1,6 +1,7 @@
 import Orca.Gen.RefTables
 import Orca.Lemmas.Ops
 import Orca.Lemmas.Preserve
+import Orca.Lemmas.Redirect
 import Orca.Gen.MapSites
 /-!
 # C07 — global references stay bound to the same global across edits
@@ -70,5 +71,19 @@ theorem c07_global_refs_after_any_history (s0 : St) (h0 : StInv s0) (ops : List 
     the global names -/
 theorem c07_global_map_uses_reviewed :
     Orca.Gen.mapUsesGlobal = ["resolve-special:global:pass", "tables:global:pass", "globals:global:pass", "exports:global:get", "elements:global:pass", "elements:global:pass", "code:global:pass", "code:global:pass", "code:global:pass", "code:global:pass", "code:global:use", "code:global:use", "data:global:pass", "names:global:get"] := by decide
+
+/-- **an id keeps designating its global through every operation except its own deletion**, for every history: if position `j`
+    of the global vector holds `x`, then after any history that does not delete `j` (and does not encode) every emitted global
+    reference whose stored id is `j` designates `x.uid` in the encoded module, or the encoder fails loudly on a dangling reference.
+    With `c30_returned_ids_designate` this covers the ids handed out by the additions. -/
+theorem c07_ids_are_stable (s0 : St) (h0 : StInv s0) (j : Nat) (x : Item) (hx : s0.g.items[j]? = some x)
+    (ops : List Op) (hs : ∀ o ∈ ops, o ≠ .encode ∧ o ≠ .deleteGlobal j) :
+    let s := (run s0 ops).1
+    (∃ s' F G M res st, encode s = (s', Ret.encoded F G M res st)
+        ∧ (∀ r' ∈ res ++ st.toList, ∃ r ∈ allRefs s, r'.site = r.site ∧ r'.sp = r.sp
+            ∧ (∃ u, PointsTo s r u ∧ designated F G M r' = some u)
+            ∧ (r.sp = .G → r.idx = j → designated F G M r' = some x.uid)))
+    ∨ (∃ s' why, encode s = (s', Ret.panic why) ∧ ∃ r ∈ allRefs s, Dangling s r) :=
+  encode_designates s0 h0 .G j x hx ops (fun o ho => ⟨fun id h e => (hs o ho).2 (by rw [h, e]), (hs o ho).1⟩)
 
 end Orca.Edit
